@@ -42,6 +42,21 @@ def stage_locality(ctx):
                 st.case((attr, s.id_, trial), sample=dict(table=attr, sensor=s.id_, value=v0) if len(st.samples) < 3 else None)
                 if v0 != v1:
                     st.violation('not-local', f'{attr}.{s.id_}: value {v0} becomes {v1} when only registers of OTHER sensors change', dict(table=attr, sensor=s.id_, block=bytes(blk).hex(), other=bytes(other).hex()))
+                # the same block over Modbus/TCP framing (no checksum trailer): also the sensors in the LAST registers of the block
+                try: vt = repr(s.read(resp(blk, kind='tcp')))
+                except Exception as ex: vt = type(ex).__name__     # noqa
+                if vt != v0:
+                    st.violation('position-mapping', f'{attr}.{s.id_}: {v0} from the block in Modbus/RTU framing, {vt} from the same registers in Modbus/TCP framing',
+                                 dict(table=attr, sensor=s.id_, block=bytes(blk).hex(), framing='tcp'))
+                # exactly the registers read_sensor() requests for this sensor -- (size + size % 2) / 2 from its own offset -- in both framings
+                if c not in ('EnumBitmap22', 'EnumBitmap4') and s.size_ > 0 and 2 * (s.offset - first) + s.size_ + s.size_ % 2 <= len(blk):
+                    exact = blk[2 * (s.offset - first):][: s.size_ + s.size_ % 2]
+                    for framing in ('tcp', 'rtu'):
+                        try: ve = repr(s.read(resp(exact, fa=s.offset, cnt=len(exact) // 2, kind=framing)))
+                        except Exception as ex: ve = type(ex).__name__     # noqa
+                        if ve != v0:
+                            st.violation('position-mapping', f'{attr}.{s.id_}: {v0} through the block at {first}, {ve} through the {len(exact) // 2} register(s) a single {framing} read of the sensor fetches',
+                                         dict(table=attr, sensor=s.id_, block=bytes(blk).hex(), framing=framing, exact_window=True))
                 # a window that starts at the sensor itself (as read_sensor does), over Modbus/TCP framing, after the bulk window
                 if 2 * (s.offset - first) + 8 <= len(blk) and c != 'EnumBitmap22':
                     sub = blk[2 * (s.offset - first):][: 2 * ((s.size_ + 1) // 2 + 3)]
